@@ -857,7 +857,7 @@ func (concSlice) Gen(rng *rand.Rand, i int, tier string) ([]string, []string) {
 	if dir {
 		tags = append(tags, "dir")
 	}
-	ops = append(ops, fmt.Sprintf("start v=%s dir=%d tr=%s", variant, b2i(dir), tr))
+	ops = append(ops, fmt.Sprintf("start v=%s dir=%d tr=%s", variant, concB2i(dir), tr))
 	var blocks []concPendingBlock
 	nextID := 1
 	writerHeld := false
@@ -1048,7 +1048,7 @@ func dedupStrings(l []string) []string {
 	return out
 }
 
-func b2i(b bool) int {
+func concB2i(b bool) int {
 	if b {
 		return 1
 	}
